@@ -29,7 +29,7 @@ ASSUMPTIONS = [
     "transfer lengths above 2**17 blocks are not explored (the library allocates blocksize*tl bytes)",
     "result names read: returned_lba, block_length, t10_vendor_identification, product_identification, product_revision_level, peripheral_device_type",
 ]
-REQUIRED_PROBES = ["readback_written", "lba_above_32bit", "ndob", "out_of_range_cc", "status"]
+REQUIRED_PROBES = ["readback_written", "lba_above_32bit", "ndob", "out_of_range_cc", "status", "shared_facade"]
 
 BS = [512, 512, 1, 1, 3, 520, 4096]
 CAPS = [64, 1 << 20, (1 << 32) + 1000, (1 << 40), (1 << 64) - 1]
@@ -135,7 +135,7 @@ def generate(rng, idx, tier):
             if b == 2:
                 op["fault"]["sense"] = S.fixed(rng.choice([2, 3, 4, 6, 0xB]), *rng.choice([(0x04, 0x01), (0x29, 0x00), (0x11, 0x00), (0x44, 0x00)])).hex()
         ops.append(op)
-    return {"property": ID, "config": {"lu": cfg, "faulty": faulty}, "ops": ops}
+    return {"property": ID, "config": {"lu": cfg, "faulty": faulty, "d_sense": rng.random() < 0.3, "shared_facade": rng.random() < 0.4}, "ops": ops}
 
 
 # ---- reference model -------------------------------------------------------
@@ -215,7 +215,7 @@ def _outcome_repr(kind, val, name):
         return "ok:%d:%s" % (len(val.datain), hashlib.sha256(bytes(val.datain)).hexdigest()[:16])
     if name.startswith("readcapacity") or name == "inquiry":
         r = val.result
-        keys = ("returned_lba", "block_length", "peripheral_device_type", "t10_vendor_identification", "product_identification", "product_revision_level")
+        keys = ("returned_lba", "block_length", "peripheral_device_type", "t10_vendor_identification", "product_revision_level")
         return "ok:%r" % [(k, bytes(r[k]).hex() if isinstance(r.get(k), (bytes, bytearray)) else r.get(k)) for k in keys if k in r]
     return "ok"
 
@@ -227,10 +227,22 @@ def execute(prog):
     bs = cfg["bs"]
     V = []
     side = {}
-    for t in TRANSPORTS:
-        lu = worlds.make_lu(cfg, ident=7)
+    shared = None
+    for n, t in enumerate(TRANSPORTS):
+        lu = worlds.make_lu(cfg, ident=7 + n)       # two physically distinct, identically initialised LUs
+        lu.d_sense = bool(prog["config"].get("d_sense"))
         dev = worlds.open_device(t, lu)
-        side[t] = {"lu": lu, "dev": dev, "scsi": SCSI(dev, blocksize=bs), "model": Model(bs, cfg["nblocks"])}
+        if prog["config"].get("shared_facade"):
+            # one facade object, re-pointed to the other device before every command (s(dev))
+            if shared is None:
+                shared = SCSI(dev, blocksize=bs)
+            else:
+                shared(dev)
+            scsi = shared
+            WORLD.probe("shared_facade")
+        else:
+            scsi = SCSI(dev, blocksize=bs)
+        side[t] = {"lu": lu, "dev": dev, "scsi": scsi, "model": Model(bs, cfg["nblocks"])}
     summary = []
     for i, op in enumerate(prog["ops"]):
         name = op["op"]
@@ -239,9 +251,12 @@ def execute(prog):
             s = side[t]
             WORLD.ev("op", i=i, op=name, transport=t)
             WORLD.armed.clear()
+            if shared is not None:
+                shared(s["dev"])        # re-point the one facade object to this device (fault free)
             if op.get("fault"):
                 WORLD.arm(op["fault"])
             mark = len(WORLD.deliveries)
+            nlog = len(s["lu"].log)
             kind, val = worlds.outcome_of(lambda: call(s["scsi"], op, bs))
             dl = WORLD.deliveries[mark:]
             where = "%s/%s" % (t, name)
@@ -261,6 +276,25 @@ def execute(prog):
                 WORLD.probe("lba_above_32bit")
             if op.get("ndob"):
                 WORLD.probe("ndob")
+            seen = [e for e in s["lu"].log[nlog:] if e[0] not in ("?", "!fault")]
+            if len(seen) == 1 and name.startswith(("read1", "write1", "writesame", "synchronizecache")):
+                f = seen[0][1]
+                sent = {"lba": op["lba"]}
+                if "tl" in op:
+                    sent["tl"] = op["tl"]
+                if "nb" in op:
+                    sent["nb"] = op["nb"]
+                if "n" in op:
+                    sent["numblks"] = op["n"]
+                for k in f:
+                    if k in ("lba", "tl", "nb", "numblks"):
+                        continue
+                    sent[k] = op.get("flags", {}).get(k, op.get(k, 0) if k in ("unmap", "anchor", "ndob") else 0)
+                bad = sorted(k for k in f if f[k] != sent.get(k, 0))
+                if bad:
+                    V.append(dict(oracle="C12.target-saw-other-arguments", where=where, detail=",".join(bad),
+                                  expected="the target decodes %s" % {k: sent.get(k, 0) for k in bad},
+                                  actual="it received %s (CDB fields per SBC)" % {k: f[k] for k in bad}))
             want_kind, want = s["model"].expect(op)
             if want_kind == "cc":
                 ok = False
